@@ -378,11 +378,29 @@ func runRetry(sc *RetryScenario) *RetryResult {
 			// before Connect is called
 		case at == "conn":
 			startConnect()
-			select {
-			case <-connDone:
-			case <-time.After(time.Until(deadline)):
-				// not an infeasible timing pattern: Connect itself did not return although the broker is reachable
-				info["connectStuck"] = true
+			for waiting := true; waiting; {
+				select {
+				case <-connDone:
+					waiting = false
+				case <-time.After(time.Until(deadline)):
+					// not an infeasible timing pattern: Connect itself did not return although the broker is reachable
+					info["connectStuck"] = true
+					waiting = false
+				case <-time.After(5 * time.Millisecond):
+					// the client is held at a gate of this very scenario whose requests come later in the list:
+					// Connect cannot return before them; the timing pattern is infeasible, not a progress failure
+					for name, g := range gates {
+						if released[name] {
+							continue
+						}
+						select {
+						case <-g.Reached():
+							unreached = append(unreached, fmt.Sprintf("%d:conn-behind-%s", i, name))
+							waiting = false
+						default:
+						}
+					}
+				}
 			}
 		case isGateLoc(at):
 			startConnect()
